@@ -27,6 +27,16 @@ type fakeCln struct {
 	wait     map[string]interface{}   // waitsendpay result, or nil for an error
 	waitErr  string
 	calls    []string
+	// payment path: every sendpay request, and what the following waitsendpay calls answer
+	sendpays []map[string]interface{}
+	waitPlan []clnWait
+}
+
+// clnWait is one waitsendpay answer: the preimage, or a payment failure with a BOLT #4 failcode.
+type clnWait struct {
+	ok       bool
+	failcode int
+	rpcDown  bool
 }
 
 func newFakeCln(t interface{ Fatalf(string, ...interface{}) }) *fakeCln {
@@ -78,8 +88,24 @@ func (f *fakeCln) serve(c net.Conn) {
 			result = map[string]interface{}{"currency": "bcrt", "payee": "03" + strings.Repeat("bb", 32), "amount_msat": 5000000, "min_final_cltv_expiry": 18, "payment_hash": claimHash, "description": "claim"}
 		case "listsendpays":
 			result = map[string]interface{}{"payments": f.attempts}
+		case "sendpay":
+			f.sendpays = append(f.sendpays, req.Params)
+			result = map[string]interface{}{"id": len(f.sendpays), "payment_hash": claimHash, "status": "pending", "amount_sent_msat": 5000000, "created_at": 1700000000, "groupid": len(f.sendpays)}
 		case "waitsendpay":
-			if f.wait != nil {
+			if len(f.waitPlan) > 0 {
+				w := f.waitPlan[0]
+				f.waitPlan = f.waitPlan[1:]
+				switch {
+				case w.ok:
+					result = map[string]interface{}{"id": 9, "payment_hash": claimHash, "status": "complete", "payment_preimage": strings.Repeat("ef", 32), "amount_msat": 5000000, "amount_sent_msat": 5000000, "created_at": 1700000000}
+				case w.rpcDown:
+					rpcErr = map[string]interface{}{"code": -1, "message": "lightningd is shutting down"}
+				default:
+					rpcErr = map[string]interface{}{"code": 204, "message": "failed: WIRE_FAILURE (reply from remote)", "data": map[string]interface{}{"id": 9, "payment_hash": claimHash, "status": "failed",
+						"erring_index": 1, "failcode": w.failcode, "failcodename": "WIRE_FAILURE", "erring_node": "03" + strings.Repeat("bb", 32), "erring_channel": "700000x12x1", "erring_direction": 0,
+						"amount_msat": 5000000, "amount_sent_msat": 5000000, "created_at": 1700000000}}
+				}
+			} else if f.wait != nil {
 				result = f.wait
 			} else {
 				rpcErr = map[string]interface{}{"code": 203, "message": f.waitErr}
@@ -166,5 +192,77 @@ func TestC06ClnRecoverClaimPayment(t *testing.T) {
 		}
 		nt := n >= 2 && (hasComplete || hasPending)
 		col.Case(desc, nt, map[string]interface{}{"attempts": statuses, "pending_settles": pendingSettles}, fmt.Sprintf("attempts:%d", n), fmt.Sprintf("complete:%v", hasComplete), fmt.Sprintf("pending:%v", hasPending))
+	})
+}
+
+// TestC05ClnPaymentAdapter: one call of the CLN adapter's claim payment creates one HTLC. The taker's loop
+// checks the chain height (and, for Bitcoin, the invoice CLTV against the csv) before every call, so an
+// adapter that sends again on its own creates HTLCs nobody checked: after a long-held, finally failed
+// attempt the next one can expire after the maker's refund. Generated waitsendpay outcomes (settled,
+// permanent failure, temporary failure with the UPDATE flag, rpc error): exactly one sendpay per call, the
+// preimage exactly when that payment settled, and the route is the single hop over the swap's channel.
+func TestC05ClnPaymentAdapter(t *testing.T) {
+	col := stats.Get("C05.cln-payment-adapter")
+	rapid.Check(t, func(t *rapid.T) {
+		f := newFakeCln(t)
+		defer f.close()
+		cl, _, err := clightning.NewClightningClient(context.Background())
+		if err != nil {
+			t.Fatalf("client: %v", err)
+		}
+		cl.VerifStartUp("lightning-rpc", f.dir)
+		first := rapid.SampledFrom([]string{"settled", "settled", "temporary-failure", "temporary-failure", "permanent-failure", "rpc-error"}).Draw(t, "firstOutcome")
+		mk := func(o string) clnWait {
+			switch o {
+			case "settled":
+				return clnWait{ok: true}
+			case "temporary-failure":
+				return clnWait{failcode: rapid.SampledFrom([]int{0x1007, 0x100c, 0x1006}).Draw(t, "updateFailcode")} // temporary_channel_failure, fee_insufficient, channel_disabled
+			case "permanent-failure":
+				return clnWait{failcode: rapid.SampledFrom([]int{0x400f, 0x4008, 0x2002}).Draw(t, "permFailcode")}
+			}
+			return clnWait{rpcDown: true}
+		}
+		f.waitPlan = []clnWait{mk(first)}
+		// whatever a second and third attempt would meet
+		for i := 0; i < 3; i++ {
+			f.waitPlan = append(f.waitPlan, mk(rapid.SampledFrom([]string{"settled", "temporary-failure", "permanent-failure"}).Draw(t, "laterOutcome")))
+		}
+		kind := rapid.SampledFrom([]string{"claim-btc", "claim-liquid", "fee"}).Draw(t, "kind")
+		scid := rapid.SampledFrom([]string{"700000x12x1", "700000:12:1"}).Draw(t, "scid")
+		var pre string
+		var perr error
+		switch kind {
+		case "claim-btc":
+			pre, perr = cl.RebalancePayment("lnbcrt1claim", scid, 0)
+		case "claim-liquid":
+			pre, perr = cl.RebalancePayment("lnbcrt1claim", scid, 32)
+		default:
+			pre, perr = cl.PayInvoiceViaChannel("lnbcrt1claim", scid)
+		}
+		desc := fmt.Sprintf("kind=%s scid=%s first=%s", kind, scid, first)
+		f.mu.Lock()
+		sends := append([]map[string]interface{}{}, f.sendpays...)
+		f.mu.Unlock()
+		if len(sends) != 1 {
+			t.Fatalf("VKEY[C05/cln-adapter/payment-attempts] %s: %d sendpay commands for one payment call (returned %q, %v)", desc, len(sends), pre, perr)
+		}
+		if first == "settled" {
+			if perr != nil || pre != strings.Repeat("ef", 32) {
+				t.Fatalf("VKEY[C06/cln-adapter/settled-payment-reported-failed] %s: the payment settled, the adapter returned (%q, %v)", desc, pre, perr)
+			}
+		} else if perr == nil {
+			t.Fatalf("VKEY[C06/cln-adapter/failed-payment-reported-paid] %s: the adapter returned preimage %q", desc, pre)
+		}
+		// the route: one hop, to the payee, over the swap's channel, for the invoice amount
+		route, _ := sends[0]["route"].([]interface{})
+		if len(route) != 1 {
+			t.Fatalf("VKEY[C24/cln-adapter/route-shape] %s: route %v", desc, sends[0]["route"])
+		}
+		hop, _ := route[0].(map[string]interface{})
+		if hop["id"] != "03"+strings.Repeat("bb", 32) || hop["channel"] != "700000x12x1" || fmt.Sprint(hop["delay"]) != "19" {
+			t.Fatalf("VKEY[C24/cln-adapter/route-shape] %s: hop %v", desc, hop)
+		}
+		col.Case(desc, first != "settled", map[string]interface{}{"kind": kind, "first": first}, "first:"+first, "kind:"+kind)
 	})
 }
